@@ -105,9 +105,12 @@ def run_poly(spec, rec, dadi, Numerics, seed):
         coefs = [rng.normal(size=shape) * amp / (max(xmap.values()) ** d) for d in range(k)]
         if log:
             coefs = [c / amp * 3 for c in coefs]
-        else:
-            # keep the linear-mode values positive so that fail_mag logic is not triggered by sign changes
+        elif ci % 2 == 0:
+            # half of the linear-mode cases are positive throughout (as spectra are) ...
             coefs[0] = np.abs(coefs[0]) + amp * (k + 1)
+        # ... the other half has entries of either sign, and entries whose limit has the opposite sign from their finest-grid
+        # value: nothing in the documented rule ("more than fail_mag decades away") makes those fall back
+        mixed_sign = (not log) and ci % 2 == 1
         pop_ids = ["pop %d" % i for i in range(len(shape))] if as_spectrum else None
         perm = [int(i) for i in rng.permutation(k)]
         desc = {"k": k, "log": log, "spectrum": as_spectrum, "carry_x": carry_x, "realx": realx,
@@ -119,7 +122,7 @@ def run_poly(spec, rec, dadi, Numerics, seed):
         model = _make_model(dadi, xmap, coefs, log, as_spectrum, carry_x, pop_ids, calls)
         x_l = None if carry_x else [xmap[p] for p in pts_l]
         mk = Numerics.make_extrap_log_func if log else Numerics.make_extrap_func
-        tags = {"k": k, "log": log}
+        tags = {"k": k, "log": log, "mixed_sign": mixed_sign}
         site = "make_extrap_log_func" if log else "make_extrap_func"
         ok, got = rec.noraise("extrap-returns", lambda: mk(model, extrap_x_l=x_l)(1.0, pts_l), site=site, tags=tags)
         rec.hit("arm-k%d" % k)
